@@ -5,6 +5,7 @@
 From RJ Require Import Base.Outcome Model.DepthSem Proofs.DepthSem_proofs.
 From RJ Require Import Model.TraceLen Proofs.TraceLen_proofs Gen.TraceWords Gen.EvalCallGraph.
 From Coq Require Import Relations.
+From RJ Require Model.RefCore Model.RefValue Model.RefEval Proofs.RefSem_proofs.
 Local Open Scope N_scope.
 
 (* ---- T: the handler blocks of the current source ---- *)
@@ -151,6 +152,16 @@ Example C10_depthsem_nonvacuous :
   top (cycle_program 2) 3 50 = Err DepthSem.StackOverflow.
 Proof. vm_compute. repeat split. Qed.
 
+(* ---- the limit on the FULL reference evaluator of C02 (Model/RefEval.v), which is tied to the
+   implementation end to end: raising the frame limit never changes an outcome other than
+   StackOverflow (re-pinned from Proofs/RefSem_proofs.v) ---- *)
+Theorem C10_refeval_limit_monotone : forall fuel c c' e r,
+  RefEval.run fuel c e = r -> snd r <> Err RefValue.EStackOverflow ->
+  RefEval.c_bfs c = RefEval.c_bfs c' -> RefEval.c_ts_tail c = RefEval.c_ts_tail c' ->
+  (RefEval.c_limit c <= RefEval.c_limit c')%N ->
+  RefEval.run fuel c' e = r.
+Proof. exact RefSem_proofs.limit_monotone. Qed.
+
 Print Assumptions C10_handler_words_balanced.
 Print Assumptions C10_handler_words_balanced_sound.
 Print Assumptions C10_handler_gain_bounded.
@@ -170,3 +181,4 @@ Print Assumptions C10_top_depth_never_exceeds.
 Print Assumptions C10_force_in_progress.
 Print Assumptions C10_cycle_detected.
 Print Assumptions C10_depthsem_nonvacuous.
+Print Assumptions C10_refeval_limit_monotone.
